@@ -221,4 +221,50 @@ theorem readEnvelope_makeEnvelope {c : Consts} (h : WF c) (e : Env Pkg Str)
     simp only [makeHeader, hzz, Option.isSome_some, if_true, hz _ _ _ hpl]
     cases cfg.format <;> rfl
 
+/-! ### The constants of envelope.py -/
+
+/-- The layout facts the header code relies on hold for the constants of envelope.py. -/
+theorem py_wf : WF py := by
+  refine ⟨by decide, by decide, by decide, by decide, by decide, ?_, by decide, by decide⟩
+  intro f g
+  cases f <;> cases g <;> decide
+
+/-- The magic number documented in the module docstring's table (`MAGIC_NUMBERS`, 8 bytes),
+    "HUGRiHJv". -/
+def docMagic : List UInt8 := [0x48, 0x55, 0x47, 0x52, 0x69, 0x48, 0x4a, 0x76]
+
+/-- `EnvelopeFormat(b)` succeeds exactly on the three documented codes. -/
+def knownCode (b : UInt8) : Prop := b = 1 ∨ b = 2 ∨ b = 63
+
+theorem knownCode_iff (b : UInt8) : knownCode b ↔ ∃ f, py.code f = b := by
+  unfold knownCode
+  have h1 : py.code .module = 1 := by decide
+  have h2 : py.code .moduleWithExts = 2 := by decide
+  have h3 : py.code .json = 63 := by decide
+  constructor
+  · rintro (rfl | rfl | rfl)
+    · exact ⟨_, h1⟩
+    · exact ⟨_, h2⟩
+    · exact ⟨_, h3⟩
+  · rintro ⟨f, rfl⟩
+    cases f
+    · exact .inl h1
+    · exact .inr (.inl h2)
+    · exact .inr (.inr h3)
+
+/-! ### The toy environment satisfies the hypotheses of the round-trip theorems -/
+
+theorem toy_hz : ∀ x l y, toyEnv.compress x l = .ok y → toyEnv.decompress y = .ok x := by
+  intro x l y h
+  simp only [toyEnv, Except.ok.injEq] at h
+  subst h
+  rfl
+
+theorem toy_hu : ∀ b s, toyEnv.utf8dec b = some s → toyEnv.utf8enc s = b := by
+  intro b s h
+  simp only [toyEnv] at h
+  split at h
+  · cases h; rfl
+  · cases h
+
 end HugrVerif.Envelope
